@@ -63,6 +63,28 @@ def run(ctx):
     ctx.floor('tempfile_creation_sites', n_sites, 2)
     r182(ctx, rep)
     r183_184(ctx, rep)
+    # R18.7: a later pass served from the spill file of fromdicts yields the complete sequence: the C01 R1.3
+    # obligations (seek to the shared mark before every dump, to the own cursor before every load) of that view
+    from . import c01
+    from ..report import Report
+    sub = Report('C01', ctx.tier, ctx.root)
+    saved = ctx.report
+    ctx.report = sub
+    try:
+        found = set()
+        for v in ctx.views.real_views():
+            if v.cls.fq == 'petl.io.json:DictsGeneratorView':
+                c01.r13(ctx, sub, v, found)
+    finally:
+        ctx.report = saved
+    n7 = 0
+    for o in sub.obligations:
+        n7 += 1
+        rep.add('R18.7', (o.module, o.qualname), o.construct, o.status, o.message, o.lineno, o.detail)
+    if n7 < 3:
+        raise AnalysisError('anchor vanished: spill-file obligations of DictsGeneratorView (%d)' % n7)
+    rep.rule('R18.7', 'spill file of fromdicts: every dump is preceded by a seek to the shared end mark, every load by a seek to the '
+                      'iterator\'s own cursor, the mark only grows (C01 R1.3 for DictsGeneratorView)')
 
 
 # ----------------------------------------------------------------------- R18.1
@@ -359,6 +381,30 @@ def _chunk_class(ctx, rep, ci):
         del_names = [t.id for d in dels for t in d.targets if isinstance(t, ast.Name)]
         if holder in del_names and del_names.index(holder) != len(del_names) - 1:
             order_ok = False
+        # the holder keeps the owner *objects* for the whole life of the generator: it is never re-bound
+        rebinds = []
+        for n in own_nodes(fn.node):
+            tgts = []
+            if isinstance(n, ast.Assign):
+                tgts = n.targets
+            elif isinstance(n, (ast.AugAssign, ast.AnnAssign)):
+                tgts = [n.target]
+            elif isinstance(n, (ast.For, ast.comprehension)):
+                tgts = [n.target]
+            elif isinstance(n, ast.withitem) and n.optional_vars is not None:
+                tgts = [n.optional_vars]
+            for t in tgts:
+                for x in ast.walk(t):
+                    if isinstance(x, ast.Name) and x.id == holder and isinstance(x.ctx, ast.Store) and \
+                            not (isinstance(n, ast.Assign) and norm(n.value) == 'self.%s' % cache_attr):
+                        rebinds.append(n)
+        if rebinds:
+            rep.violated('R18.4', fn, norm(rebinds[0])[:70],
+                         '`%s` is the generator\'s own reference to the chunk-file owners; re-binding it (here to `%s`) drops '
+                         'that reference while the chunks are still being read: as soon as the view clears or replaces its '
+                         'cache the files are unlinked under the pending iterator' % (
+                             holder, norm(getattr(rebinds[0], 'value', rebinds[0]))[:40]), rebinds[0])
+            continue
         if not derived:
             rep.violated('R18.4', fn, 'def ' + fn.name,
                          'the chunk file names are not taken from the owner list `%s` the generator holds' % holder, fn.node)
